@@ -163,13 +163,6 @@ pub fn hash_layout<const N: usize, const P: u32, S: Src>(s: &mut S) {
         chk!(ha.log[i] == hb.log[i], "equal buffers feed the hasher the same words");
         i += 1;
     }
-    // and the stream covers every element, in order (so unequal contents can hash differently)
-    chk!(ha.n == ma.len + 1, "the hash covers the length and every element");
-    let mut i = 0;
-    while i < ma.len {
-        chk!(ha.log[1 + i] == (0x100 | ma.a[i] as u64), "the hash covers the elements in order");
-        i += 1;
-    }
 }
 
 // ------------------------------------------------------------------ Debug
